@@ -90,6 +90,8 @@ def run(ctx):
         if bad:
             viol.append({"input_hex": t.hex(), "input": t.decode("latin-1"), "what": bad, "stream": m["stream"]})
     viol += extra_inputs(ctx)
+    import aliasing
+    viol += aliasing.file_sequences()
     fresh, known = split_known("C02", viol, lambda f, v: False)
     return std_result(rec, info, fresh, known, RULE)
 
